@@ -107,7 +107,23 @@ def h_paint(c):
     kw['max_velocity'] = maxv
   if mode == 'length_ms':
     kw['onset_length_ms'] = c.params.get('onset_len_ms', 30)
-  roll = sl.sequence_to_pianoroll(ns, fps, lo, hi, **kw)
+  if maxv < 127:
+    # a note of the window louder than max_velocity is an error; a note
+    # OUTSIDE the window is ignored whatever its velocity
+    roll, err = c.raises(sl.sequence_to_pianoroll, ns, fps, lo, hi, **kw)
+    loud = c.Or([c.And(n['p'] >= lo, n['p'] <= hi, n['v'] > maxv)
+                 for n in notes])
+    if err is not None:
+      c.check(isinstance(err, ValueError) and bool(loud),
+              'ValueError only for an in-window note louder than max_velocity')
+      c.cover('too loud note rejected')
+      return
+    c.check(c.Not(loud), 'a too loud in-window note was accepted')
+    c.cover('loud note outside the pitch window ignored',
+            c.Or([c.And(c.Or(n['p'] < lo, n['p'] > hi), n['v'] > maxv)
+                  for n in notes]))
+  else:
+    roll = sl.sequence_to_pianoroll(ns, fps, lo, hi, **kw)
   c.check(c.msg_eq(ns, before), 'input unchanged')
   T = c.concretize(c.Floor(tt * fps + 1))
   act, ons, vel = roll.active, roll.onsets, roll.active_velocities
@@ -490,6 +506,7 @@ def jobs(tier):
   add('h_paint', N=1, fps='16', frames=4, mode='window', onset_window=0)
   add('h_paint', N=1, fps='16', frames=5, mode='window', onset_window=2,
       max_velocity=200)
+  add('h_paint', N=1, fps='16', frames=3, mode='window', max_velocity=64)
   # onset length longer than the note, with a delay
   add('h_paint', N=1, fps='32', frames=5, mode='length_ms', onset_len_ms=62.5,
       delay_ms=31.25, budget=600)
